@@ -41,7 +41,15 @@ FOR_SRC = {
     "F2": ["for i in range(2):", "    if self.a[i]:", "        s <<= i + 1", "        break", "else:", "    s <<= 3"],
     "F3": ["self.o <<= first_set()"],
     "F4": ["for bit in self.a:", "    if bit:", "        v @= v + 1"],
+    # bool(x) / x.__bool__() of a Variable[bool] is a snapshot: a later assignment to the variable does not change it
+    "B1": ["was = bool(vb)", "vb @= self.c", "if was:", "    v @= v + 1"],
+    "B2": ["was = vb.__bool__()", "vb @= self.c", "if was:", "    s <<= 3"],
+    # helper with an early return nested in one branch of an if whose other branch falls through, then another call,
+    # then statements with an effect (must not run on the returned path)
+    "N1": ["proc_nested(s, v)"],
+    "N2": ["self.o <<= val_nested()"],
 }
+FRAGS = ("F1", "F2", "F3", "F4", "R1", "R2", "B1", "B2", "N1", "N2")
 
 M2 = 3
 
@@ -122,14 +130,15 @@ class Ref:
         self.p = 0
         self.pn = 0
         self.vi = 0
+        self.vb = 0
 
     def snapshot(self):
         st = self.st
-        return (st["s"], st["mem"], st["v"], st["o"], self.p, self.ond, self.onr, self.orst, self.onr2, self.pn, self.onrr, self.vi)
+        return (st["s"], st["mem"], st["v"], st["o"], self.p, self.ond, self.onr, self.orst, self.onr2, self.pn, self.onrr, self.vi, self.vb)
 
     def restore(self, sn):
         self.st = {"s": sn[0], "mem": sn[1], "v": sn[2], "o": sn[3]}
-        self.p, self.ond, self.onr, self.orst, self.onr2, self.pn, self.onrr, self.vi = sn[4:]
+        self.p, self.ond, self.onr, self.orst, self.onr2, self.pn, self.onrr, self.vi, self.vb = sn[4:]
 
     def do_reset(self):
         pn = self.pn  # noreset: keeps its value while reset is active
@@ -235,6 +244,27 @@ class Ref:
                 elif k == "F3":
                     a = inp[0]
                     nxt["o"] = 1 if a & 1 else 2 if a & 2 else 0
+                elif k in ("B1", "B2"):
+                    was = self.vb
+                    self.vb = inp[2]
+                    if was:
+                        if k == "B1":
+                            st["v"] = (st["v"] + 1) & M2
+                        else:
+                            nxt["s"] = 3
+                            sbits.clear()
+                elif k == "N1":
+                    if inp[2]:
+                        st["v"] = (st["v"] + 1) & M2
+                        nxt["s"] = inp[0]
+                        sbits.clear()
+                    elif inp[1]:
+                        pass
+                    else:
+                        nxt["s"] = inp[0]
+                        sbits.clear()
+                elif k == "N2":
+                    nxt["o"] = inp[0] if (inp[2] or not inp[1]) else 3
                 elif k == "F4":
                     a = inp[0]
                     st["v"] = (st["v"] + bin(a).count("1")) & M2
@@ -299,7 +329,12 @@ def render(prog, reset=None, entity="T", locals_in_body=False, c04=False, on_res
         L.append("    en = Port.input(Bit)")
     L += ["    def architecture(self):",
           "        s = Signal[Unsigned[2]](0)", "        mem = Signal[Array[Bit, 2]]([False, False])", "        v = Variable[Unsigned[2]](0)",
-          "        vi = Variable[Unsigned[1]](0)",
+          "        vi = Variable[Unsigned[1]](0)", "        vb = Variable[bool](False)",
+          "        def nop():", "            pass",
+          "        def proc_nested(sig, var):", "            if self.c:", "                var @= var + 1", "            else:",
+          "                if self.b[0]:", "                    return", "            nop()", "            sig <<= self.a",
+          "        def val_nested():", "            if self.c:", "                pass", "            else:",
+          "                if self.b[0]:", "                    return Unsigned[2](3)", "            nop()", "            return self.a",
           "        def pickbit():", "            if self.c:", "                return self.a[0]", "            return self.a[1]",
           *(["        nrr = std.NoresetSignal[RecNR](f=0, g=False)"] if c04 else []),
           "        def pick(x):", "            if self.c:", "                return x", "            return x + 1",
@@ -329,7 +364,7 @@ def render(prog, reset=None, entity="T", locals_in_body=False, c04=False, on_res
             L.append("        @base_ctx.with_params(step_cond=lambda: self.en)")
         else:
             L.append(f"        @std.sequential(std.Clock(self.clk), std.Reset(self.rst, is_async={reset['is_async']}, active_low={reset['active_low']}){sc}{onr})")
-    L += ["        def proc():", "            nonlocal s, v, vi"]
+    L += ["        def proc():", "            nonlocal s, v, vi, vb"]
     if c04:
         L += ["            self.ond <<= self.a", "            self.onr <<= self.a", "            self.orst <<= 1",
               "            self.onr2[0] <<= self.a[0]", "            self.onr2[1:1] <<= self.a[1:1]", "            nrr.f <<= self.a"]
@@ -399,7 +434,7 @@ def programs(size, level=0, conds=("c", "s0", "v0")):
     if size == 1:
         for a in at:
             yield (a,)
-        for f in ("F1", "F2", "F3", "F4", "R1", "R2"):
+        for f in FRAGS:
             yield ((f,),)
         return
     if size == 2:
@@ -409,7 +444,7 @@ def programs(size, level=0, conds=("c", "s0", "v0")):
         for c in conds:
             for x in at:
                 yield (("if", c, (x,), None),)
-        for f in ("F1", "F2", "F3", "F4", "R1", "R2"):
+        for f in FRAGS:
             for x in small:
                 yield ((f,), x)
                 yield (x, (f,))
